@@ -4,7 +4,7 @@ import random
 import types
 
 from harness import common
-from harness.common import Report, evaluate_corr, listlit, optlit, proof_gate, zlit
+from harness.common import Report, evaluate_corr, listlit, optlit, proof_gate, report_failure, zlit
 
 IMPORTS = ["Model.Fixed Model.Bitmap Corr.Common Corr.C14"]
 
@@ -127,7 +127,11 @@ def run(report: Report, n):
             glyphs.append(types.SimpleNamespace(glyph_id=g, bitmap=PNG(png_bytes(w, h, rng)), bitmap_filename=f"{g}.png"))
         font = ttLib.TTFont()
         font.setGlyphOrder(order)
-        bt.make_cbdt_table(cfg, font, glyphs)
+        try:
+            bt.make_cbdt_table(cfg, font, glyphs)
+        except Exception as ex:
+            report_failure(report, f"cbdt_table_{i}", dict(kind="property", function="make_cbdt_table", gids=gids, error=f"{type(ex).__name__}: {ex}", note="valid glyph ids of one height were rejected"))
+            return
         cblc, cbdt = font["CBLC"], font["CBDT"]
         runs, problems = [], []
         prev_end = bt.CBDT_HEADER_SIZE
